@@ -57,7 +57,7 @@ func rebase(c *Case, root string) {
 // RunC16 runs the generator lattice.
 func RunC16(r *report.Run, b Bins, tier string, seed int64) {
 	r.Rule = "service definitions synthesized as descriptors (validated with protodesc.NewFiles): documented-legal lattice (call type x per_node_arg x custom_return_type x async x server stream x own/shared/Empty/imported messages x 1..12 methods x identifier spellings), " +
-		"every documented illegal input, and identifier-collision inputs; the real plugin binary is run as a subprocess several times per input; accepted output is compiled together with protoc-gen-go's output; " +
+		"every documented illegal input, identifier-collision inputs, and requests for two files at once whose services share a method name with different call types; the real plugin binary is run as a subprocess several times per input; accepted output is compiled together with protoc-gen-go's output; " +
 		"distinct = input definition; non-trivial = every input (each is a different service definition)"
 	r.Assume("inputs are descriptors protoc would accept (checked with protodesc.NewFiles); there is no protoc on this image, so protoc's own front-end checks are not exercised")
 	r.Assume("go build of the emitted package against /repo's runtime decides 'compiles'")
@@ -76,6 +76,7 @@ func RunC16(r *report.Run, b Bins, tier string, seed int64) {
 	}
 	cases = append(cases, IllegalCases(rng, "i")...)
 	cases = append(cases, TrickyCases(rng, "t")...)
+	cases = append(cases, MultiFileCases(rng, "m")...)
 	for i := range cases {
 		rebase(&cases[i], root)
 	}
@@ -95,7 +96,7 @@ func RunC16(r *report.Run, b Bins, tier string, seed int64) {
 		go func(i int, c *Case, protos []*descriptorpb.FileDescriptorProto) {
 			defer wg.Done()
 			defer func() { <-sem }()
-			req, err := plugin.Request(protos, []string{c.Gen}, c.Param)
+			req, err := plugin.Request(protos, append([]string{c.Gen}, c.GenAlso...), c.Param)
 			if err != nil {
 				r.Inconc("request: " + err.Error())
 				return
@@ -275,7 +276,7 @@ func RunC17Synth(r *report.Run, b Bins, tier string, seed int64) {
 		if plugin.Validate(protos) != nil {
 			continue
 		}
-		req, err := plugin.Request(protos, []string{c.Gen}, c.Param)
+		req, err := plugin.Request(protos, append([]string{c.Gen}, c.GenAlso...), c.Param)
 		if err != nil {
 			continue
 		}
